@@ -220,7 +220,7 @@ def systematic_resample(
     cumulative_sum = weights[0]
     indeces = np.empty(size, dtype=int)
     for i in range(size):
-        while j < len(weights) - 1 and positions[i] > cumulative_sum:
+        while j < len(weights) - 1 and positions[i] >= cumulative_sum:
             j += 1
             cumulative_sum += weights[j]
         indeces[i] = j
